@@ -29,7 +29,13 @@ ASSUMPTIONS = [
     "the harness plug-ins are valid puresnmp privacy plug-ins (IDENTIFIER, IANA_ID, encrypt_data, decrypt_data); decrypt inverts encrypt",
     "engine boots / time handed to the plug-in are the discovered ones (timeliness over the client's life is C12)",
 ]
-REQUIRED_CLASSES = {"marker_set": 0.15, "two_blocks": 0.25, "shared_user_engine": 0.10, "verifblock": 0.20}
+_REQUIRED_BASE = {"marker_set": 0.15, "two_blocks": 0.25, "shared_user_engine": 0.10, "verifblock": 0.20}
+# generator health of the newer case families (quick tier: the thorough tier dilutes them with enumerated units)
+_REQUIRED_QUICK = {'salt_shapes': 0.15, 'plugin_installed_late': 0.02}
+
+
+def REQUIRED_CLASSES(tier):
+    return dict(_REQUIRED_BASE, **(_REQUIRED_QUICK if tier == "quick" else {}))
 
 MARK = b"TOP-SECRET-MARKER-0123456789"
 SCALAR = (1, 3, 6, 1, 4, 1, 43, 1, 0)
